@@ -56,3 +56,23 @@ def rank_codes(values, extra=()):
 def is_int_array(a):
     a = np.asarray(a)
     return a.dtype.kind in 'iu' or (a.dtype.kind == 'f' and np.all(a == np.round(a)))
+
+
+LABELLINGS = ['default', 'offset', 'late_gap', 'reversed']
+
+
+def relabel(df, k):
+    """A table is a SEQUENCE of rows in the specification: the row LABELS of a data frame are not part of the abstract state.  Variant k of
+    the labelling (the rows, their order and their values are untouched): the default 0..n-1, a window cut out of a longer table (labels
+    start at 7), a table from which one late row was dropped (labels equal positions only up to a late gap), labels in descending order."""
+    m, v = len(df), k % 4
+    if v == 0 or m == 0:
+        return df
+    if v == 1:
+        idx = np.arange(m) + 7
+    elif v == 2:
+        g = m - max(1, m // 3)
+        idx = np.r_[np.arange(g), np.arange(g, m) + 1]
+    else:
+        idx = np.arange(m)[::-1]
+    return df.set_axis(idx, axis=0)
